@@ -85,3 +85,51 @@ def lex_bounded(pid, cfg, results, tier, seed):
             out["info"]["runs"].append({"check": "known-finding witness", "id": ent["id"], "reproduces": False})
             out["undecided"].append("known finding %s no longer reproduces on its witness: turn the entry into `fixed` (KNOWN-FINDING-RESOLVED)" % ent["id"])
     return out
+
+
+# ------------------------------------------------------------------------------------------------
+# C11: the flag may only be READ inside functions under contract (convert_def) or at the plumbing
+# sites that copy it from the command line into the generator state.  A new reader makes the check
+# undecided (never a silent pass, never an alarm).
+ANNOTATE_PLUMBING = {
+    ("src/lib.rs", "annotate: arguments.annotate,"),
+    ("src/generate/mod.rs", "annotate: pipeline_args.annotate,"),
+    ("src/generate/convert/state.rs", "annotate: gen_arguments.annotate,"),
+}
+
+
+def annotate_readers(pid, cfg, results, tier, seed):
+    import re
+    from . import driver
+    out = {"info": {}, "violations": [], "undecided": [], "cmds": ["scan of src/**/*.rs for reads of `.annotate`"]}
+    covered = []   # (file, start, end) of functions under contract
+    for u in results.values():
+        for fn in u.get("functions", []) or []:
+            covered.append((fn["file"], fn["line"], fn["end_line"]))
+    readers, plumbing = [], []
+    root = os.path.join(driver.REPO, "src")
+    for dp, dn, fns in os.walk(root):
+        for fn in fns:
+            if not fn.endswith(".rs"):
+                continue
+            path = os.path.join(dp, fn)
+            rel = os.path.relpath(path, driver.REPO)
+            try:
+                lines = open(path, encoding="utf-8").read().split("\n")
+            except OSError:
+                continue
+            for n, line in enumerate(lines, 1):
+                code = line.split("//")[0]
+                if not re.search(r"\.\s*annotate\b(?!\s*:)", code):
+                    continue
+                if any(rel == f and a <= n <= b for (f, a, b) in covered):
+                    continue
+                if (rel, code.strip()) in ANNOTATE_PLUMBING:
+                    plumbing.append("%s:%d" % (rel, n))
+                    continue
+                readers.append("%s:%d: %s" % (rel, n, code.strip()))
+    out["info"] = {"readers_inside_contracted_functions_only": not readers, "plumbing_sites": plumbing,
+                   "uncontracted_readers": readers}
+    if readers:
+        out["undecided"].append("reader(s) of the annotate flag outside the functions under contract: %s — the non-interference argument of C11 no longer covers the whole crate" % "; ".join(readers))
+    return out
